@@ -1,5 +1,6 @@
 import BddProofs.Alloc
 import BddProofs.Reach
+import BddProofs.ErrGood
 /-! # C06 — collection reclaims exactly the dead nodes and freed storage is reused
 
 `real_size` (`realSize`) is the number of stored nodes (terminal included), `size()` (`lastIndex`) the
@@ -61,6 +62,14 @@ theorem C06_full {s : St} (hg : Good s) {v : Nat} (hv : v ≠ 0) {low high : Ref
     e = .storageFull ∧ s' = s ∧ (∀ j, 1 ≤ j → j < s.storage.vals.size → rd s.storage.occs j = true) ∧
     s.storage.realSize + 1 = s.storage.vals.size := mkNode_full_occupied hg hv h
 
+/-- the manager keeps working after the caught panic: the state a failing operation leaves behind (it may
+have built nodes before running out of cells) satisfies every invariant, old handles keep their meaning,
+and so does every state reached from it by further operations, failures and collections -/
+theorem C06_after_caught_panic {s s' : St} (hg : Good s) (h : StepErr s s') :
+    Good s' ∧ Sub s.nodes s'.nodes := StepErr.post hg h
+
+theorem C06_histories_with_failures {s : St} (h : ReachableF s) : Good s := reachableF_good h
+
 /-- storing a node never overwrites a stored node -/
 theorem C06_no_overwrite {s : St} (hg : Good s) {n : Node} {s' i} (h : s.put n = .ok (s', i)) :
     ∀ j, rd s.storage.occs j = true → rd s'.storage.occs j = true ∧ rd s'.storage.vals j = rd s.storage.vals j :=
@@ -83,3 +92,5 @@ end P
 #print axioms P.C06_fits
 #print axioms P.C06_full
 #print axioms P.C06_no_overwrite
+#print axioms P.C06_after_caught_panic
+#print axioms P.C06_histories_with_failures
